@@ -36,3 +36,10 @@ add("C16", "E1 ctxmachine", "model_checking",
     "Every sequence of 2-3 trees over 4 skeletons (1-3 leaf positions) with every assignment of sizes {2,3} to every array position is checked in one real context against PyTree[L,'T'], PyTree[L] and bare L for 8 leaf types containing '?n' / '*?v' (alone, in unions, tuples, structure-less and structured inner PyTrees), with a plain axis n bound at every point of the sequence; every verdict incl. AnnotationError is compared with the reference.",
     "For leaf types that are themselves PyTrees the statements do not settle which subtree counts as a leaf: there only 'never AnnotationError beneath exactly one structured PyTree' / 'AnnotationError beneath none or two' is asserted, except on single-leaf trees where the reference is sharp.",
     "DESIGN.md §6 C16")
+
+ENGINES.append(dict(name="E5 space", path="vf/checks/c03.py c14.py c15.py c20.py c10.py", serves_properties=["C03"], kind_free_text="complete enumeration of finite input products on the real isinstance / annotation constructors against reference tables or differentially"))
+add("C03", "E5 space", "exploration",
+    "complete product enumeration (dtype x carrier x category) on the real isinstance against a three-valued documented-hierarchy table over canonical dtype identities, plus cross-backend consistency",
+    "Every dtype NumPy, ml_dtypes, JAX (incl. tracers and PRNG keys) and TensorFlow can produce on this platform is crossed with all 34 exported categories and 35 generated user/struct categories on every carrier (np.ndarray, jax.Array, tracer, tf.Tensor, string / torch-style / as_numpy_dtype ducks); the space is finite and enumerated completely, nothing sampled or capped.",
+    "Trusted: NumPy/JAX/ml_dtypes/TF introspection for canonical identities and vf/refs/dtypes.py (synchronised with docs/api/array.md at start-up). Undocumented precisions (longdouble, float8_e3m4, ...) are don't-care on the value but must be consistent across carriers; 'matches' is read as Pattern.match; platform-specific alias set (x86-64 Linux).",
+    "DESIGN.md §6 C03")
